@@ -27,6 +27,9 @@ class PrintUnit(Unit):
         return spec_print.kani_harness_list(prog, want_names=True)
     def twin_of(self, ctx, prog, fn):
         return None
+    def candidate_replay(self, ctx, prog, o):
+        from .. import lreplay
+        return lreplay.printers(prog, o.fn)
     def sample(self, ctx, prog, plan):
         k = (prog.name, 'Display', 'fmt')
         if k in plan:
